@@ -102,6 +102,9 @@ def evalArith (op : Op) (a b : Val) : Val :=
   | .or_, x, y => ofTV (or3 (truth x) (truth y))
   | _, _, _ => .null
 
+/-- three-valued `x BETWEEN lo AND hi`: `x >= lo AND x <= hi` -/
+def evalBetween (x lo hi : Val) : TV := and3 (evalCmp .ge x lo) (evalCmp .le x hi)
+
 /-- three-valued `x IN (v₁, …, vₙ)`: the OR of the equalities (FALSE for the empty list) -/
 def evalIn (x : Val) : List Val → TV
   | [] => some false
@@ -229,6 +232,12 @@ def stdI [Abs] (env : String → Val) : Interp SV where
        | .notLike => .s (ofTV (not3 (Abs.like a.scalar b.scalar (some ch))))
        | .ilike => .s (ofTV (Abs.ilike a.scalar b.scalar (some ch)))
        | .notIlike => .s (ofTV (not3 (Abs.ilike a.scalar b.scalar (some ch))))
+       | _ => .s .null)
+    | .and_, hi =>
+      -- `a BETWEEN b AND c`
+      (match s with
+       | .between => .s (ofTV (evalBetween a.scalar b.scalar hi))
+       | .notBetween => .s (ofTV (not3 (evalBetween a.scalar b.scalar hi)))
        | _ => .s .null)
     | _, _ => .s .null
   br := fun k v =>
